@@ -15,9 +15,11 @@ import (
 
 // neutralSites (development aid, `verifsa neutral-sites -repo DIR`): behaviour-preserving single-site rewrites that need
 // type information, as byte-offset edits in the format of tools/mutate:
-//   range-to-index   for _, v := range xs { .. }            ->  for zzI := range xs { v := xs[zzI]; .. }     (xs a slice or array, not assigned in the body)
-//   index-to-range   for i := 0; i < len(xs); i++ { .. }     ->  for i := range xs { .. }                     (xs a slice or array, i and xs not assigned in the body)
-//   const-inline     a use of a module constant              ->  its value (converted to the constant's type where it is a named type)
+//
+//	range-to-index   for _, v := range xs { .. }            ->  for zzI := range xs { v := xs[zzI]; .. }     (xs a slice or array, not assigned in the body)
+//	index-to-range   for i := 0; i < len(xs); i++ { .. }     ->  for i := range xs { .. }                     (xs a slice or array, i and xs not assigned in the body)
+//	const-inline     a use of a module constant              ->  its value (converted to the constant's type where it is a named type)
+//
 // Every check must stay silent on each of them.
 type nEdit struct {
 	File  string `json:"file"`
@@ -30,7 +32,7 @@ type nEdit struct {
 	New   string `json:"new"`
 }
 
-func neutralSites(repo string) {
+func neutralSites(repo string, mutants bool) {
 	prog, err := load.Load(repo, "")
 	if err != nil {
 		fmt.Fprintln(os.Stderr, err)
@@ -107,58 +109,146 @@ func neutralSites(repo string) {
 					})
 					return ok
 				}
-				// local-rename: every parameter, named result, receiver and local variable of the function gets another name
-				// (one variant per function; all references follow through types.Info)
-				{
-					type ed struct {
-						off, n int
-						s      string
-					}
-					var eds []ed
-					objs := map[types.Object]bool{}
-					ast.Inspect(fd, func(n ast.Node) bool {
-						if id, ok := n.(*ast.Ident); ok {
-							if obj, isDef := pkg.TypesInfo.Defs[id]; isDef && obj != nil {
-								if v, isV := obj.(*types.Var); isV && !v.IsField() && id.Name != "_" && v.Parent() != pkg.Types.Scope() {
-									objs[obj] = true
+				if !mutants {
+					// local-rename: every parameter, named result, receiver and local variable of the function gets another name
+					// (one variant per function; all references follow through types.Info)
+					{
+						type ed struct {
+							off, n int
+							s      string
+						}
+						var eds []ed
+						objs := map[types.Object]bool{}
+						ast.Inspect(fd, func(n ast.Node) bool {
+							if id, ok := n.(*ast.Ident); ok {
+								if obj, isDef := pkg.TypesInfo.Defs[id]; isDef && obj != nil {
+									if v, isV := obj.(*types.Var); isV && !v.IsField() && id.Name != "_" && v.Parent() != pkg.Types.Scope() {
+										objs[obj] = true
+									}
 								}
+							}
+							return true
+						})
+						ast.Inspect(fd, func(n ast.Node) bool {
+							if id, ok := n.(*ast.Ident); ok {
+								obj := pkg.TypesInfo.Defs[id]
+								if obj == nil {
+									obj = pkg.TypesInfo.Uses[id]
+								}
+								if obj != nil && objs[obj] {
+									eds = append(eds, ed{off(id.Pos()), len(id.Name), id.Name + "Zz"})
+								}
+							}
+							return true
+						})
+						if len(eds) > 0 {
+							start, end := off(fd.Pos()), off(fd.End())
+							buf := append([]byte{}, src[start:end]...)
+							for i := 0; i < len(eds); i++ {
+								for j := i + 1; j < len(eds); j++ {
+									if eds[j].off > eds[i].off {
+										eds[i], eds[j] = eds[j], eds[i]
+									}
+								}
+							}
+							last := -1
+							for _, e := range eds {
+								if e.off == last {
+									continue
+								}
+								last = e.off
+								o := e.off - start
+								buf = append(buf[:o], append([]byte(e.s), buf[o+e.n:]...)...)
+							}
+							enc.Encode(nEdit{File: rel, Line: prog.Fset.Position(fd.Pos()).Line, Func: name, Op: "local-rename", Start: start, End: end, Old: fd.Name.Name, New: string(buf)})
+						}
+					}
+				}
+				if mutants {
+					// typed mutation operators (these are NOT neutral): two adjacent arguments of one type exchanged, two
+					// same-typed fields of a keyed literal exchanged, a named constant replaced by its neighbour of the same type
+					ast.Inspect(fd.Body, func(n ast.Node) bool {
+						switch x := n.(type) {
+						case *ast.CallExpr:
+							if tv, ok := pkg.TypesInfo.Types[x.Fun]; ok && tv.IsType() {
+								return true
+							}
+							for i := 0; i+1 < len(x.Args); i++ {
+								a, b := x.Args[i], x.Args[i+1]
+								ta, tb := pkg.TypesInfo.TypeOf(a), pkg.TypesInfo.TypeOf(b)
+								if ta == nil || tb == nil || !types.Identical(ta, tb) || text(a) == text(b) {
+									continue
+								}
+								if x.Ellipsis != token.NoPos && i+1 == len(x.Args)-1 {
+									continue
+								}
+								emit("arg-swap", a.Pos(), b.End(), text(b)+string(src[off(a.End()):off(b.Pos())])+text(a))
+							}
+						case *ast.CompositeLit:
+							var kvs []*ast.KeyValueExpr
+							for _, e := range x.Elts {
+								if kv, ok := e.(*ast.KeyValueExpr); ok {
+									if _, isID := kv.Key.(*ast.Ident); isID {
+										kvs = append(kvs, kv)
+									}
+								}
+							}
+							for i := 0; i+1 < len(kvs); i++ {
+								a, b := kvs[i].Value, kvs[i+1].Value
+								ta, tb := pkg.TypesInfo.TypeOf(a), pkg.TypesInfo.TypeOf(b)
+								if ta == nil || tb == nil || !types.Identical(ta, tb) || text(a) == text(b) {
+									continue
+								}
+								if _, isStruct := pkg.TypesInfo.TypeOf(x).Underlying().(*types.Struct); !isStruct {
+									continue
+								}
+								emit("lit-field-swap", a.Pos(), b.End(), text(b)+string(src[off(a.End()):off(b.Pos())])+text(a))
+							}
+						case *ast.Ident, *ast.SelectorExpr:
+							var id *ast.Ident
+							var node ast.Expr
+							switch y := x.(type) {
+							case *ast.Ident:
+								id, node = y, y
+							case *ast.SelectorExpr:
+								if _, isPkg := pkg.TypesInfo.Uses[idOf(y.X)].(*types.PkgName); !isPkg {
+									return true
+								}
+								id, node = y.Sel, y
+							}
+							c, isC := pkg.TypesInfo.Uses[id].(*types.Const)
+							if !isC || c.Pkg() == nil || !load.InModule(c.Pkg()) {
+								return true
+							}
+							nt, isN := c.Type().(*types.Named)
+							if !isN {
+								return true
+							}
+							// the next constant of the same named type in the declaring package's scope (by declaration position)
+							var best *types.Const
+							for _, nm := range c.Pkg().Scope().Names() {
+								o, ok := c.Pkg().Scope().Lookup(nm).(*types.Const)
+								if !ok || o == c || !types.Identical(o.Type(), nt) || o.Pos() <= c.Pos() {
+									continue
+								}
+								if best == nil || o.Pos() < best.Pos() {
+									best = o
+								}
+							}
+							if best != nil {
+								repl := best.Name()
+								if sel, isSel := node.(*ast.SelectorExpr); isSel {
+									repl = text(sel.X) + "." + repl
+								}
+								emit("const-sibling", node.Pos(), node.End(), repl)
+							}
+							if _, isSel := x.(*ast.SelectorExpr); isSel {
+								return false
 							}
 						}
 						return true
 					})
-					ast.Inspect(fd, func(n ast.Node) bool {
-						if id, ok := n.(*ast.Ident); ok {
-							obj := pkg.TypesInfo.Defs[id]
-							if obj == nil {
-								obj = pkg.TypesInfo.Uses[id]
-							}
-							if obj != nil && objs[obj] {
-								eds = append(eds, ed{off(id.Pos()), len(id.Name), id.Name + "Zz"})
-							}
-						}
-						return true
-					})
-					if len(eds) > 0 {
-						start, end := off(fd.Pos()), off(fd.End())
-						buf := append([]byte{}, src[start:end]...)
-						for i := 0; i < len(eds); i++ {
-							for j := i + 1; j < len(eds); j++ {
-								if eds[j].off > eds[i].off {
-									eds[i], eds[j] = eds[j], eds[i]
-								}
-							}
-						}
-						last := -1
-						for _, e := range eds {
-							if e.off == last {
-								continue
-							}
-							last = e.off
-							o := e.off - start
-							buf = append(buf[:o], append([]byte(e.s), buf[o+e.n:]...)...)
-						}
-						enc.Encode(nEdit{File: rel, Line: prog.Fset.Position(fd.Pos()).Line, Func: name, Op: "local-rename", Start: start, End: end, Old: fd.Name.Name, New: string(buf)})
-					}
+					continue
 				}
 				ast.Inspect(fd.Body, func(n ast.Node) bool {
 					switch x := n.(type) {
